@@ -9,6 +9,7 @@ C17, round 6 — lemmas for
 import Pandora.Proofs.C17
 import Pandora.Proofs.C17Cast
 import Pandora.Proofs.C17Path
+import Pandora.Spec.C17
 
 namespace Pandora.Proofs.C17
 open Pandora.Model.C17
@@ -79,5 +80,88 @@ theorem injectOther_ok_of_text (env : Env) (s t : Str) (h : resolve env s = .tex
 
 theorem injectOther_plain (env : Env) (s : Str) (h : resolve env s = .plain) : injectOther env s = .ok s := by
   simp [injectOther, h]
+
+/-! ## the decoded value at a path through struct fields, pointers, LIST ELEMENTS and PLUGIN POSITIONS
+
+`FAt` / `value_at` (round 1) follow Go field names through structs and pointers to structs only.  `GAt` adds the steps the
+real configuration tree has between the root and an option of a component: the element `#i` of a list (`pools[0]`),
+the config a constructed plugin instance was built from (`Gun` of a pool: the instance stands for the config it received)
+and the config `#i` the i-th call of a factory hands to its constructor.  The plugin steps need the block to be
+accepted (an eagerly built plugin whose block is refused does not exist); below a lazily filled factory the config is
+there whatever the block says. -/
+
+open Pandora.Spec.C17 in
+inductive GAt (fl : Flags) (env : Env) : List Str → Schema → Val → Schema → Val → Prop
+  | here (s : Schema) (c : Val) : GAt fl env [] s c s c
+  | field (fs : Fields) (kvs : List (Str × Val)) (f : FInfo) (s : Schema) (key : Str) (c : Val) (p : List Str)
+      (s' : Schema) (c' : Val) :
+      FieldFirst f s fs → f.settable = true → findKey kvs f.key = some (key, c) →
+      GAt fl env p s c s' c' → GAt fl env (f.name :: p) (.struct fs) (.map kvs) s' c'
+  | deref (n : Bool) (fs : Fields) (kvs : List (Str × Val)) (nm : Str) (p : List Str) (s' : Schema) (c' : Val) :
+      GAt fl env (nm :: p) (.struct fs) (.map kvs) s' c' → GAt fl env (nm :: p) (.ptr n (.struct fs)) (.map kvs) s' c'
+  | elem (e : Schema) (d : DVal) (xs : List Val) (ds : Str) (c : Val) (p : List Str) (s' : Schema) (c' : Val) :
+      xs[digitsVal ds 0]? = some c → GAt fl env p e c s' c' →
+      GAt fl env (('#' :: ds) :: p) (.slice e d) (.list xs) s' c'
+  | inst (pi : PInfo) (alts : Alts) (m : List (Str × Val)) (name : Str) (lzy : Bool) (fs : Fields)
+      (nm : Str) (p : List Str) (s' : Schema) (c' : Val) :
+      pi.factory = false → typeEntries m = [.str name] → pi.names.contains name = true →
+      altOf alts name = some (lzy, .struct fs) →
+      (lzy = true ∨ settle (decode fl env (.struct fs) (.map (dropType m))) = []) →
+      GAt fl env (nm :: p) (.struct fs) (.map (dropType m)) s' c' →
+      GAt fl env (nm :: p) (.plugin pi alts) (.map m) s' c'
+  | call (pi : PInfo) (alts : Alts) (m : List (Str × Val)) (name : Str) (lzy : Bool) (fs : Fields)
+      (ds : Str) (p : List Str) (s' : Schema) (c' : Val) :
+      pi.factory = true → typeEntries m = [.str name] → pi.names.contains name = true →
+      altOf alts name = some (lzy, .struct fs) →
+      (lzy = true ∨ settle (decode fl env (.struct fs) (.map (dropType m))) = []) →
+      GAt fl env p (.struct fs) (.map (dropType m)) s' c' →
+      GAt fl env (('#' :: ds) :: p) (.plugin pi alts) (.map m) s' c'
+
+theorem plugin_val (fl : Flags) (env : Env) (pi : PInfo) (alts : Alts) (m : List (Str × Val)) (name : Str) (lzy : Bool)
+    (s : Schema) (hte : typeEntries m = [.str name]) (hname : pi.names.contains name = true)
+    (halt : altOf alts name = some (lzy, s))
+    (hacc : lzy = true ∨ settle (decode fl env s (.map (dropType m))) = []) :
+    (decode fl env (.plugin pi alts) (.map m)).val =
+      if pi.factory then .factory (decode fl env s (.map (dropType m))).val
+      else .plugin (decode fl env s (.map (dropType m))).val := by
+  rw [decode_plugin_map fl env pi alts m name lzy s hte hname halt _ rfl]
+  rcases hacc with rfl | hs
+  · simp
+  · cases lzy <;> simp [hs]
+
+open Pandora.Spec.C17 in
+theorem value_at_g (fl : Flags) (env : Env) {p : List Str} {s : Schema} {cfg : Val} {s' : Schema} {c' : Val}
+    (h : GAt fl env p s cfg s' c') : lookup p (decode fl env s cfg).val = some (decode fl env s' c').val := by
+  induction h with
+  | here s c => rfl
+  | field fs kvs f s key c p s' c' hff hset hfind _ ih =>
+    have hfr : fieldResult fl env kvs f s = decode fl env s c := by simp [fieldResult, hset, hfind]
+    rw [decode_struct_map]
+    simp only [lookup, stepPtr, find_first fl env kvs hff, hfr]
+    exact ih
+  | deref n fs kvs nm p s' c' _ ih =>
+    rw [decode_ptr fl env n (.struct fs) (.map kvs) (by intro h; cases h) (by intro _ h; cases h)]
+    rw [decode_struct_map] at ih ⊢
+    simpa [lookup, stepPtr] using ih
+  | elem e d xs ds c p s' c' hget _ ih =>
+    rw [decode_slice_list]
+    simp only [lookup, stepPtr, List.getElem?_map, hget, Option.map_some]
+    exact ih
+  | inst pi alts m name lzy fs nm p s' c' hfac hte hname halt hacc _ ih =>
+    rw [plugin_val fl env pi alts m name lzy (.struct fs) hte hname halt hacc]
+    rw [decode_struct_map] at ih ⊢
+    simpa [hfac, lookup, stepPtr] using ih
+  | call pi alts m name lzy fs ds p s' c' hfac hte hname halt hacc _ ih =>
+    rw [plugin_val fl env pi alts m name lzy (.struct fs) hte hname halt hacc]
+    rw [decode_struct_map] at ih ⊢
+    simpa [hfac, lookup, stepPtr] using ih
+
+/-- every `FAt` path is a `GAt` path -/
+theorem GAt.ofFAt (fl : Flags) (env : Env) {p : List Str} {s : Schema} {cfg : Val} {s' : Schema} {c' : Val}
+    (h : FAt p s cfg s' c') : GAt fl env p s cfg s' c' := by
+  induction h with
+  | here s c => exact .here s c
+  | field fs kvs f s key c p s' c' hff hset hfind _ ih => exact .field fs kvs f s key c p s' c' hff hset hfind ih
+  | deref n fs kvs nm p s' c' _ ih => exact .deref n fs kvs nm p s' c' ih
 
 end Pandora.Proofs.C17
